@@ -242,7 +242,7 @@ impl Plan {
                 for e in a {
                     let o = e.get(0).and_then(|x| x.as_u64()).ok_or("eintr")?;
                     let t = e.get(1).and_then(|x| x.as_u64()).ok_or("eintr")?;
-                    p.reader.eintr.push((o, t as u8));
+                    p.reader.eintr.push((o, t as u32));
                 }
             }
             if let Some(e) = r.get("error") {
